@@ -137,8 +137,8 @@ def float_text(rng):
         ex = rng.choice([b'e', b'E']) + rng.choice([b'', b'', b'-', b'+']) + bytes(rng.choice(b'0123456789') for _ in range(rng.choice([0, 1, 2, 3, 3, 4])))
     tail = rng.choice([b'', b',', b' ', b';', b'e', b'.', b'-1', b'f'])
     t = ws + sign + ip + fp + ex + tail
-    b2 = t.lstrip(b' \n\t').lstrip(b'+-')
-    if b2[:2] in (b'0x', b'0X') or b2[:1] in (b'i', b'I', b'n', b'N'): t = ws + sign + b'1' + t.lstrip(b' \n\t+-')
+    if rng.random() < 0.06:   # texts glibc treats specially: broken nan / inf / hexadecimal prefixes fail, complete ones are outside the model
+        t = ws + sign + rng.choice([b'n', b'na', b'nax', b'nAn', b'i', b'in', b'inx', b'INF', b'infinity', b'0x', b'0xg', b'0X,', b'0x1p3', b'0x.8', b'nf"', b'N1'])
     return t
 
 def mutate_shown(rng):
@@ -207,7 +207,7 @@ class C15(Spec):
     def cases(self, rng, tier, boost=1):
         quick = tier == 'quick'
         cs = []
-        def chunk(name, lines, n=1500):
+        def chunk(name, lines, n=2500):
             for i in range(0, len(lines), n): cs.append(Case(f'{name}{i // n}', lines[i:i + n]))
         # (a) every byte value, alone and with every kind of neighbour; the full-range string
         lines = []
@@ -222,7 +222,7 @@ class C15(Spec):
                 lines.append(f'R {src} 7 {mode} s={hx(allb[::-1])} t=2c s={hx(allb)}')
         chunk('bytes', lines)
         # (b) single values
-        n1 = (10000 if quick else 100000) * boost
+        n1 = (50000 if quick else 400000) * boost
         lines = []
         for _ in range(n1):
             src = rng.choice('SF'); pm = rng.random() < 0.5
@@ -234,12 +234,12 @@ class C15(Spec):
             lines.append(f"R {src} {rng.choice(START)} {'print' if pm else 'show'} {it}{z}")
         chunk('single', lines)
         # (c) sequences, in contract
-        n2 = (10000 if quick else 100000) * boost
+        n2 = (50000 if quick else 400000) * boost
         chunk('seq', [sequence(rng, True) for _ in range(n2)])
         # (d) sequences out of contract (correspondence only) and arbitrary text
-        n3 = (5000 if quick else 50000) * boost
+        n3 = (25000 if quick else 150000) * boost
         chunk('adv', [sequence(rng, False, 6) for _ in range(n3)])
-        n4 = (15000 if quick else 150000) * boost
+        n4 = (75000 if quick else 550000) * boost
         chunk('look', [look_op(rng) for _ in range(n4)])
         # (e) long strings
         lines = []
@@ -281,6 +281,8 @@ class C15(Spec):
                 acc['looks_' + t[3]] = acc.get('looks_' + t[3], 0) + 1
         for l in core.lines_with('O ', c_out):
             if 'Error' in l: acc['exceptions'] = acc.get('exceptions', 0) + 1
+        for l in core.lines_with('O ', m_out):
+            if 'unmodelled' in l: acc['unmodelled_by_the_libc_model'] = acc.get('unmodelled_by_the_libc_model', 0) + 1
         for l in core.lines_with('M ', m_out):
             if 'contract=1' in l: acc['in_contract'] = acc.get('in_contract', 0) + 1
             else: acc['out_of_contract'] = acc.get('out_of_contract', 0) + 1
@@ -296,8 +298,13 @@ class C15(Spec):
                 return f'model does not round-trip the in-contract op `{ops[k] if k < len(ops) else "?"}`: {prev}'
         return None
     def compare(self, case, c_out, m_out):
-        d = core.first_divergence(c_out, m_out)
-        if d: return d
+        # observations the model declares outside its coverage of libc ("inf"/"nan"/hexadecimal floating text reached by an
+        # out-of-contract sequence or a K op) are not compared; they are counted in the statistics
+        a, b = core.lines_with('O ', c_out), core.lines_with('O ', m_out)
+        for i in range(max(len(a), len(b))):
+            x = a[i] if i < len(a) else '<missing>'
+            y = b[i] if i < len(b) else '<missing>'
+            if x != y and 'unmodelled' not in y: return i, x, y
         # the model must round-trip every op that is inside the contract (this is what the theorems state)
         cex = self.model_selfcheck(case, m_out)
         if cex: return (-2, '<n/a>', cex)
